@@ -1066,8 +1066,9 @@ def fill_traces(ctx, exe, lines):
             bad += 1
             out[i] = None
     if bad:
-        ctx.notes.append("%d generated cases dropped in the trace pass (pattern rejected by PCRE2 or harness "
-                         "crash; a crash is re-detected in the differential pass)" % bad)
+        ctx.notes.append("%d generated cases dropped in the trace pass (rewrite-repeat rule that grows the target "
+                         "exponentially, pattern rejected by PCRE2, or harness crash; a crash is re-detected in "
+                         "the differential pass)" % bad)
     if rc != 0:
         # crash in the trace pass: run the offending line in the differential so it is reported
         for j, i in enumerate(need):
